@@ -124,6 +124,24 @@ def templates():
     for dk, decl in inner_decls.items():
         for sk, wrap in scopes.items():
             T.append([IDF, ("set", "x", ("call", V("idf"), [I(1)]))] + wrap(decl) + [V("x")])
+    # a binder inside a FUNCTION BODY that shadows a captured name: after the binder construct (and in its
+    # else branch) the name is the captured value again, on every call
+    for dk, decl in inner_decls.items():
+        T.append([IDF, ("set", "x", ("call", V("idf"), [I(1)])),
+                  ("fndecl", "h", [], ("any",), decl + [("return", V("x"))]),
+                  ("tuple", [("call", V("h"), []), ("call", V("h"), []), V("x")])])
+    IDU = ("fndecl", "idu", [("v", ("multi", (INT, STR)))], ("multi", (INT, STR)), [("return", V("v"))])
+    for arg, in ((I(5),), (("s", "five"),)):
+        # the narrowing idiom `if u: int = u {..} else {.. u ..}` on a captured union-typed name
+        T.append([IDU, ("set", "u", ("call", V("idu"), [arg])),
+                  ("fndecl", "h", [], ("any",), [("set", "r", ("ifset", "u", INT, V("u"), ("block", [("bin", "add", V("u"), I(1))]), ("block", [V("u")]))),
+                                                  ("return", ("tuple", [V("r"), V("u")]))]),
+                  ("call", V("h"), [])])
+        T.append([IDU, ("set", "u", ("call", V("idu"), [arg])), ("set", "n", ("mut", INT, I(0))),
+                  ("fndecl", "h", [], ("any",), [("whileset", "u", INT, ("if", ("bin", "lt", ("pre", "deref", V("n")), I(2)), ("block", [V("u")]), ("block", [("unit",)])),
+                                                   ("block", [("assign", "add", V("n"), I(1))])),
+                                                  ("return", ("tuple", [V("u"), ("pre", "deref", V("n"))]))]),
+                  ("call", V("h"), [])])
     # capture by value: redeclare after creating the closure; captured cell stays shared
     T.append([IDF, ("set", "x", ("call", V("idf"), [I(1)])), ("set", "c", ("mut", INT, I(10))),
               ("fndecl", "g", [], INT, [("return", ("bin", "add", V("x"), ("pre", "deref", V("c"))))]),
